@@ -16,5 +16,6 @@ open Pcore.Files
 #print axioms C15_found_iff_module
 #print axioms C15_dependency_outcome
 #print axioms C15_found_iff_dependency
+#print axioms C15_absent_module
 #print axioms C15_misnamed_no_line
 #print axioms C15_duplicate_redefine
